@@ -11,6 +11,13 @@ condition) in line order (const / ref-qualified overloads repeat the same text),
 site among the statements of the function body, and `late` = some statement with a side effect (an
 assignment, a call, a member initialiser) precedes the site in the function.
 
+`late` is decided by statement POSITION (text order), with one refinement for a check inside a loop: the header
+of a counting loop `for (T i = a; cond; ++i)` / a range-for only declares and advances a local variable and is
+not a side effect on the object, but the statements of the loop body that FOLLOW the check are executed before the
+check from the second iteration on, so they are scanned as if they preceded it.  `late = false` for a site inside
+a loop therefore means: no statement with a side effect precedes the check in the function text, and none is in
+the body of an enclosing loop (on any iteration the handler sees the object as the caller passed it).
+
 The output is a Lean list literal `Tetl.C05.Sites.sites`; `Tetl.C05.Props.sites_accounted` compares
 its (key, late) projection with the guards the models carry, by `decide`.
 """
@@ -112,11 +119,70 @@ SIDE_OK = re.compile(
     r"(constexpr\s+)?auto\s*(const)?\s*[*&]?\s*\w+\s*=|if\s+constexpr|if\s*\(|else\b|assert_\w+\s*\(|return\b|etl::unreachable\(\))")
 
 
-def analyse_body(body):
-    """(statement index, late) for a site at the end of `body` (text from the function's `{` to the macro)."""
-    parts = re.split(r"[;{}]", body)
+FOR_RE = re.compile(r"\bfor\s*\(")
+LOCAL_INIT = re.compile(r"^\s*(constexpr\s+)?(const\s+)?(auto|[A-Za-z_][\w:]*(<[^;]*>)?)\s*(const)?\s*[*&]{0,2}\s*[A-Za-z_]\w*\s*(=|\{|:)")
+STEP = re.compile(r"^\s*((\+\+|--)\s*[A-Za-z_]\w*|[A-Za-z_]\w*\s*(\+\+|--))?\s*$")
+ASSIGN = re.compile(r"(?<![=!<>+\-*/%&|^])=(?!=)")
+
+
+def neutral_loop_headers(text):
+    """Replace the header of every counting loop `for (T i = a; cond; ++i)` and every range-for whose only effects
+    are on the local loop variable by `if (...)` (which the side-effect scan accepts), keeping the length."""
+    out, i = [], 0
+    while True:
+        m = FOR_RE.search(text, i)
+        if not m:
+            out.append(text[i:])
+            return "".join(out)
+        e = balanced(text, m.end() - 1)
+        inner = text[m.end():e - 1]
+        parts, depth, cur = [], 0, []
+        for ch in inner:
+            if ch in "([{":
+                depth += 1
+            elif ch in ")]}":
+                depth -= 1
+            if ch == ";" and depth == 0:
+                parts.append("".join(cur))
+                cur = []
+            else:
+                cur.append(ch)
+        parts.append("".join(cur))
+        ok = False
+        if len(parts) == 3:
+            ok = bool(LOCAL_INIT.match(parts[0])) and not ASSIGN.search(parts[1]) and bool(STEP.match(parts[2]))
+        elif len(parts) == 1:
+            ok = bool(LOCAL_INIT.match(parts[0])) and ":" in parts[0]
+        out.append(text[i:m.start()])
+        if ok:
+            out.append("if (" + re.sub(r"[^\n]", " ", inner) + ")")
+        else:
+            out.append(text[m.start():e])
+        i = e
+
+
+def match_brace(text, i):
+    """text[i] == '{' -> index of the matching '}' (or len(text))."""
+    d = 0
+    for j in range(i, len(text)):
+        if text[j] == "{":
+            d += 1
+        elif text[j] == "}":
+            d -= 1
+            if d == 0:
+                return j
+    return len(text)
+
+
+def analyse_body(body, loop_rest=""):
+    """(statement index, late) for a site at the end of `body` (text from the function's `{` to the macro);
+    `loop_rest`: the text from the end of the macro to the end of the outermost enclosing loop body."""
+    parts = re.split(r"[;{}]", neutral_loop_headers(body))
     stmts = [p for p in parts[:-1]]
     late = any(not SIDE_OK.match(p) for p in stmts)
+    if loop_rest:
+        rest = re.split(r"[;{}]", neutral_loop_headers(loop_rest))
+        late = late or any(not SIDE_OK.match(p) for p in rest)
     return len([p for p in stmts if p.strip()]), late
 
 
@@ -154,7 +220,7 @@ def extract_file(path, rel):
             header = src[seg_start:i]
             hs = header.strip()
             if CTRL_RE.match(header):
-                kind, name = "ctrl", None
+                kind, name = "ctrl", header.strip()
             elif pdepth > 0:
                 kind, name = "init", None
             elif last_closed is not None and (hs == "" or hs.startswith(",")):
@@ -203,14 +269,18 @@ def extract_file(path, rel):
                     cond = re.sub(r"\s+", " ", src[k + 1:e - 1]).strip()
                     line = src.count("\n", 0, i) + 1
                     fn, cls, fstart, minit = None, None, None, False
+                    loop_open = None        # `{` of the outermost loop between the function and the site
                     for fr in reversed(stack):
+                        if fr[0] == "ctrl" and fn is None and re.match(r"^(for|while|do)\b", fr[1] or ""):
+                            loop_open = fr[2]
                         if fr[0] == "func" and fn is None:
                             fn, fstart, minit = fr[1], fr[2], fr[3]
                         if fr[0] == "class" and cls is None:
                             cls = fr[1]
                     if fn is None:
                         fn, fstart = "<file scope>", max(0, i - 1)
-                    stmt, late = analyse_body(src[fstart + 1:i])
+                    loop_rest = src[e + 1:match_brace(src, loop_open)] if loop_open is not None else ""
+                    stmt, late = analyse_body(src[fstart + 1:i], loop_rest)
                     sites.append({"file": rel, "line": line, "cls": cls or "", "func": fn, "cond": cond,
                                   "macro": mac[5:], "stmt": stmt, "late": bool(late or minit)})
                     i = e - 1
